@@ -404,14 +404,30 @@ def additive_factor(t, X, Y, ls, alpha=None):
 
 
 def cond_matrix(spec, X, Y):
-    """Per pair (i, j): magnitude of the intermediates of the Newton-Girard recursion of an additive kernel,
+    """Per pair (i, j): magnitude of the terms whose signed sum is K_ij.  Additive kernels: the intermediates of the
+    Newton-Girard recursion,
     sum_n |scale_n| (1/n) sum_k e_{n-1-k}(|k0|) p_{k+1}(|k0|)  (>= |K_ij|): the size against which the rounding error
     of that kernel entry has to be judged.  None for other kernels."""
     t = spec["t"]
-    if t not in ADDITIVE:
-        return None
     if Y is None:
         Y = X
+    # other kernels that are sums of terms of both signs: the sum of the absolute terms
+    if t == "AntisymRBF":
+        ls = np.array(spec["ls"], dtype=float)
+        d = (X[:, None, 2:] - Y[None, :, 2:]) / ls[1:]
+        return 4.0 * np.exp(-0.5 * np.sum(d * d, axis=2))
+    if t == "Linear":
+        return np.abs(X).dot(np.abs(Y).T)
+    if t == "SingleDot":
+        i = spec["index"]
+        return spec["sigma0"] ** 2 + np.abs(X[:, i: i + 1]).dot(np.abs(Y[:, i: i + 1]).T)
+    if t == "Poly":
+        from math import factorial
+
+        dot = (np.abs(_arr(spec["gamma"])) * np.abs(X)).dot(np.abs(Y).T)
+        return sum(dot**n / (factorial(n) if spec["factorial"] else 1.0) for n in range(spec["order"] + 1))
+    if t not in ADDITIVE:
+        return None
     v = np.abs(additive_factor(t, X, Y, _arr(spec["ls"]), spec.get("alpha")))
     order = spec["order"]
     e = esp(v, order)
